@@ -11,10 +11,13 @@ Definition cfg_cols (cfg : rom) : list string :=
   cfg_numer cfg :: olist (cfg_denom cfg) ++ olist (cfg_numer_covariate cfg) ++ olist (cfg_denom_covariate cfg).
 Definition oin (o : option string) (cols : list string) : Prop := match o with None => True | Some c => In c cols end.
 
+(* two aggregates agree on what a metric with these columns requests: the count, the mean and variance of each column, and
+   the covariance of every pair of DIFFERENT columns (aggr_cols requests cov for col0 < col1 only) *)
 Definition agree (cols : list string) (a a' : aggregates R) : Prop :=
   count_ a = count_ a' /\
   (forall c, In c cols -> mean_ a c = mean_ a' c /\ var_ a c = var_ a' c) /\
-  (forall c d, In c cols -> In d cols -> cov_ a (sorted_tuple c d) = cov_ a' (sorted_tuple c d)).
+  (forall c d, In c cols -> In d cols -> c <> d -> cov_ a (sorted_tuple c d) = cov_ a' (sorted_tuple c d)).
+Definition odiff (o1 o2 : option string) : Prop := match o1, o2 with Some c, Some d => c <> d | _, _ => True end.
 
 Section Agree.
 Variable cols : list string.
@@ -27,16 +30,17 @@ Lemma ag_mean o : oin o cols -> agg_mean a o = agg_mean a' o.
 Proof. destruct o as [c|]; cbn; [|reflexivity]. intros Hc. apply H. exact Hc. Qed.
 Lemma ag_var o : oin o cols -> agg_var a o = agg_var a' o.
 Proof. destruct o as [c|]; cbn; [|reflexivity]. intros Hc. apply H. exact Hc. Qed.
-Lemma ag_cov o1 o2 : oin o1 cols -> oin o2 cols -> agg_cov a o1 o2 = agg_cov a' o1 o2.
-Proof. destruct o1 as [c|], o2 as [d|]; cbn; try reflexivity. intros Hc Hd. apply H; assumption. Qed.
-Lemma ag_ratio_var o1 o2 : oin o1 cols -> oin o2 cols -> agg_ratio_var a o1 o2 = agg_ratio_var a' o1 o2.
-Proof. intros H1 H2. unfold agg_ratio_var. rewrite !(ag_mean _ H1), !(ag_mean _ H2), (ag_var _ H1), (ag_var _ H2), (ag_cov _ _ H1 H2). reflexivity. Qed.
+Lemma ag_cov o1 o2 : oin o1 cols -> oin o2 cols -> odiff o1 o2 -> agg_cov a o1 o2 = agg_cov a' o1 o2.
+Proof. destruct o1 as [c|], o2 as [d|]; cbn; try reflexivity. intros Hc Hd Hne. apply H; assumption. Qed.
+Lemma ag_ratio_var o1 o2 : oin o1 cols -> oin o2 cols -> odiff o1 o2 -> agg_ratio_var a o1 o2 = agg_ratio_var a' o1 o2.
+Proof. intros H1 H2 D. unfold agg_ratio_var. rewrite !(ag_mean _ H1), !(ag_mean _ H2), (ag_var _ H1), (ag_var _ H2), (ag_cov _ _ H1 H2 D). reflexivity. Qed.
 Lemma ag_ratio_cov o1 o2 o3 o4 : oin o1 cols -> oin o2 cols -> oin o3 cols -> oin o4 cols ->
+  odiff o1 o3 -> odiff o1 o4 -> odiff o2 o3 -> odiff o2 o4 ->
   agg_ratio_cov a o1 o2 o3 o4 = agg_ratio_cov a' o1 o2 o3 o4.
 Proof.
-  intros H1 H2 H3 H4. unfold agg_ratio_cov.
+  intros H1 H2 H3 H4 D13 D14 D23 D24. unfold agg_ratio_cov.
   rewrite !(ag_mean _ H1), !(ag_mean _ H2), !(ag_mean _ H3), !(ag_mean _ H4),
-    (ag_cov _ _ H1 H3), (ag_cov _ _ H1 H4), (ag_cov _ _ H2 H3), (ag_cov _ _ H2 H4). reflexivity.
+    (ag_cov _ _ H1 H3 D13), (ag_cov _ _ H1 H4 D14), (ag_cov _ _ H2 H3 D23), (ag_cov _ _ H2 H4 D24). reflexivity.
 Qed.
 End Agree.
 
@@ -48,13 +52,13 @@ Proof.
   - intros c Hc. cbn. unfold add_mean, add_var.
     rewrite Ca, Cb, (ag_mean cols a a' Ha (Some c) Hc), (ag_mean cols b b' Hb (Some c) Hc),
       (ag_var cols a a' Ha (Some c) Hc), (ag_var cols b b' Hb (Some c) Hc). split; reflexivity.
-  - intros c d Hc Hd. cbn. unfold add_cov.
-    assert (Hf : In (fst (sorted_tuple c d)) cols /\ In (snd (sorted_tuple c d)) cols).
+  - intros c d Hc Hd Hne. cbn. unfold add_cov.
+    assert (Hf : In (fst (sorted_tuple c d)) cols /\ In (snd (sorted_tuple c d)) cols /\ fst (sorted_tuple c d) <> snd (sorted_tuple c d)).
     { destruct (sorted_tuple_cases c d) as [E|E]; rewrite E; cbn; auto. }
-    destruct Hf as [Hf Hs].
+    destruct Hf as (Hf & Hs & Hd').
     rewrite Ca, Cb, !(ag_mean cols a a' Ha (Some _) Hf), !(ag_mean cols b b' Hb (Some _) Hf),
       !(ag_mean cols a a' Ha (Some _) Hs), !(ag_mean cols b b' Hb (Some _) Hs),
-      (ag_cov cols a a' Ha (Some _) (Some _) Hf Hs), (ag_cov cols b b' Hb (Some _) (Some _) Hf Hs). reflexivity.
+      (ag_cov cols a a' Ha (Some _) (Some _) Hf Hs Hd'), (ag_cov cols b b' Hb (Some _) (Some _) Hf Hs Hd'). reflexivity.
 Qed.
 
 Lemma cfg_cols_in cfg :
@@ -64,19 +68,31 @@ Proof.
   unfold cfg_cols. destruct (cfg_denom cfg), (cfg_numer_covariate cfg), (cfg_denom_covariate cfg); cbn; tauto.
 Qed.
 
-Theorem analysis_reads_only_declared fam cfg c c' t t' :
+(* the metric's columns are pairwise different (with a repeated column the code itself raises KeyError: DESIGN.md 7.2) *)
+Lemma cfg_cols_distinct cfg : NoDup (cfg_cols cfg) ->
+  odiff (Some (cfg_numer cfg)) (cfg_denom cfg) /\ odiff (cfg_numer_covariate cfg) (cfg_denom_covariate cfg) /\
+  odiff (Some (cfg_numer cfg)) (cfg_numer_covariate cfg) /\ odiff (Some (cfg_numer cfg)) (cfg_denom_covariate cfg) /\
+  odiff (cfg_denom cfg) (cfg_numer_covariate cfg) /\ odiff (cfg_denom cfg) (cfg_denom_covariate cfg).
+Proof.
+  unfold cfg_cols. destruct (cfg_denom cfg) as [d|], (cfg_numer_covariate cfg) as [nc|], (cfg_denom_covariate cfg) as [dc|];
+    cbn; intros H; repeat split; try exact I; intros E; subst;
+    repeat match goal with H : NoDup (_ :: _) |- _ => inversion H; clear H; subst end; cbn in *; tauto.
+Qed.
+
+Theorem analysis_reads_only_declared fam cfg c c' t t' : NoDup (cfg_cols cfg) ->
   agree (cfg_cols cfg) c c' -> agree (cfg_cols cfg) t t' ->
   rom_analyze_aggregates fam cfg c t = rom_analyze_aggregates fam cfg c' t'.
 Proof.
-  intros Hc Ht. pose proof (agree_add _ _ _ _ _ Hc Ht) as Htot.
+  intros Hnd Hc Ht. pose proof (agree_add _ _ _ _ _ Hc Ht) as Htot.
+  destruct (cfg_cols_distinct cfg Hnd) as (D12 & D34 & D13 & D14 & D23 & D24).
   destruct (cfg_cols_in cfg) as (I1 & I2 & I3 & I4).
   unfold rom_analyze_aggregates, agg_with_zero_div, agg_wrap, rom_covariate_coef, rom_covariate_cov, rom_metric_mean, rom_metric_var,
     rom_covariate_cov.
-  rewrite (ag_ratio_var _ _ _ Htot _ _ I3 I4), (ag_ratio_cov _ _ _ Htot _ _ _ _ I1 I2 I3 I4),
+  rewrite (ag_ratio_var _ _ _ Htot _ _ I3 I4 D34), (ag_ratio_cov _ _ _ Htot _ _ _ _ I1 I2 I3 I4 D13 D14 D23 D24),
     (ag_mean _ _ _ Htot _ I3), (ag_mean _ _ _ Htot _ I4).
   rewrite !(ag_mean _ _ _ Hc _ I1), !(ag_mean _ _ _ Hc _ I2), !(ag_mean _ _ _ Hc _ I3), !(ag_mean _ _ _ Hc _ I4),
     !(ag_mean _ _ _ Ht _ I1), !(ag_mean _ _ _ Ht _ I2), !(ag_mean _ _ _ Ht _ I3), !(ag_mean _ _ _ Ht _ I4).
-  rewrite !(ag_ratio_var _ _ _ Hc _ _ I1 I2), !(ag_ratio_var _ _ _ Hc _ _ I3 I4), !(ag_ratio_cov _ _ _ Hc _ _ _ _ I1 I2 I3 I4),
-    !(ag_ratio_var _ _ _ Ht _ _ I1 I2), !(ag_ratio_var _ _ _ Ht _ _ I3 I4), !(ag_ratio_cov _ _ _ Ht _ _ _ _ I1 I2 I3 I4).
+  rewrite !(ag_ratio_var _ _ _ Hc _ _ I1 I2 D12), !(ag_ratio_var _ _ _ Hc _ _ I3 I4 D34), !(ag_ratio_cov _ _ _ Hc _ _ _ _ I1 I2 I3 I4 D13 D14 D23 D24),
+    !(ag_ratio_var _ _ _ Ht _ _ I1 I2 D12), !(ag_ratio_var _ _ _ Ht _ _ I3 I4 D34), !(ag_ratio_cov _ _ _ Ht _ _ _ _ I1 I2 I3 I4 D13 D14 D23 D24).
   rewrite (ag_count _ _ _ Hc), (ag_count _ _ _ Ht). reflexivity.
 Qed.
